@@ -95,3 +95,32 @@ func VerifHarness_C15_DateTimeLiteralFraction() {
 	}
 	verifrt.Reach("end")
 }
+
+// C15-L5f / L7 (and C13's round trip for values that arrive from elements): an instant element becomes a DateTime whose
+// text denotes it - no digits below what the text shows are kept - for every precision enum value and zone.
+func VerifHarness_C15_InstantToSystemHasNoHiddenDigits() {
+	verifrt.SplitCalendar()
+	precs := []dtpb.Instant_Precision{dtpb.Instant_SECOND, dtpb.Instant_MILLISECOND, dtpb.Instant_MICROSECOND}
+	p := precs[verifrt.Choose("precision", len(precs))]
+	z := verifZones[verifrt.Choose("zone", 4)]
+	us := int64(verifrt.NondetIntRange("s", 1709164800, 1709164800+86399))*1000000 + int64(verifrt.NondetIntRange("us", 0, 999999))
+	v, err := From(&dtpb.Instant{ValueUs: us, Timezone: z.tz, Precision: p})
+	verifrt.Assert(err == nil, "instant-converts")
+	if err != nil {
+		return
+	}
+	dt, isDT := v.(DateTime)
+	verifrt.Assert(isDT, "instant-becomes-a-DateTime")
+	if !isDT {
+		return
+	}
+	s := dt.String()
+	back, err2 := ParseDateTime(s)
+	verifrt.Assert(err2 == nil, "its-text-reparses")
+	if err2 != nil {
+		return
+	}
+	eq, has := back.TryEqual(dt)
+	verifrt.Assert(eq && has, "instant-value-has-no-hidden-digits")
+	verifrt.Reach("end")
+}
